@@ -351,6 +351,11 @@ def claims(params, inp, out, lg):
     return cl
 
 
+def signature(params, v):
+    # one signature per operation (not per argument list)
+    return "C17/" + v["name"].split("[")[0].split(":")[0]
+
+
 def canaries(params, inp, out, lg):
     # false on purpose: a freshly set value would have to differ from what was passed in
     idx = 0
